@@ -606,11 +606,9 @@ def rule_v4(chk, v, roles):
             return
         sbi, stt = b2[0]
         mode = None
-        p0 = flow.op_place(stt["args"][0])
-        if p0 is not None:
-            df = flow.single_def(body, p0["l"])
-            if df and df["kind"] == "assign" and df["rv"]["k"] == "agg":
-                mode = df["rv"].get("variant")
+        rv0 = flow.resolve_agg(body, stt["args"][0])
+        if rv0 is not None:
+            mode = rv0.get("variant")
         want_mode = "HeaderAuth" if v.kind == "v2-header" else "PresignedUrl"
         chk.verdict(mode == want_mode, "V4", key + ".mode", body.loc(sbi), "V2 string-to-sign mode is %s for a %s verifier" % (mode, v.kind))
         for idx, fld, what in ((1, "req_method", "method"), (2, "req_uri", "resource path"), (3, "qs", "sub-resources"), (4, "hs", "headers"), (5, "vh_bucket", "virtual-host bucket")):
